@@ -99,7 +99,7 @@ var c07ToClasses = []string{"user", "user", "fresh", "other-prefix", "bad-checks
 	"module-opchild", "module-feecollector", "module-distribution", "module-minter"}
 
 var c07Payloads = []string{"none", "none", "garbage", "truncated", "badsig", "wrongseq", "wrongchain", "ok-send", "ok-send", "ok-multi", "fail-k", "unroutable",
-	"multi-signer", "self-withdraw", "self-exec", "gas-hog", "empty-tx", "withdraw-then-fail", "send-and-withdraw", "reentrant-finalize"}
+	"multi-signer", "self-withdraw", "self-exec", "gas-hog", "empty-tx", "withdraw-then-fail", "send-and-withdraw", "reentrant-finalize", "withdraw-native", "withdraw-and-send"}
 
 func genC07Case(rt *rapid.T) *c07Case {
 	tc := newTwoChain(tcOpts{nExecutors: 1, fault: true})
@@ -123,6 +123,12 @@ func genC07Case(rt *rapid.T) *c07Case {
 	} else {
 		cs.desc += "fresh;"
 	}
+	if rapid.IntRange(0, 6).Draw(rt, "presetMetadata") == 0 {
+		// the bank module already knows display metadata for the L2 denom (e.g. from bank genesis)
+		d := tcL2Denom(tc, "uinit")
+		l2.BK.SetDenomMetaData(l2.Ctx, banktypes.Metadata{Base: d, Display: d, Name: "preset", Symbol: "PRE", DenomUnits: []*banktypes.DenomUnit{{Denom: d, Exponent: 0}}})
+		cs.desc += "bank-metadata-preset;"
+	}
 	cs.hookMaxGas = rapid.SampledFrom([]uint64{opchildtypes.DefaultHookMaxGas, opchildtypes.DefaultHookMaxGas, opchildtypes.DefaultHookMaxGas, 0, 1, 500, 5_000, 50_000}).Draw(rt, "hookMaxGas")
 	params, _ := l2.K.GetParams(l2.Ctx)
 	params.HookMaxGas = cs.hookMaxGas
@@ -133,7 +139,7 @@ func genC07Case(rt *rapid.T) *c07Case {
 	// recipient
 	cs.toClass = rapid.SampledFrom(c07ToClasses).Draw(rt, "toClass")
 	cs.payload = rapid.SampledFrom(c07Payloads).Draw(rt, "payload")
-	hookNeedsFunds := cs.payload == "withdraw-then-fail" || cs.payload == "send-and-withdraw" || cs.payload == "ok-send" || cs.payload == "ok-multi" || cs.payload == "self-withdraw" || cs.payload == "fail-k" || cs.payload == "gas-hog" || cs.payload == "multi-signer"
+	hookNeedsFunds := cs.payload == "withdraw-and-send" || cs.payload == "withdraw-then-fail" || cs.payload == "send-and-withdraw" || cs.payload == "ok-send" || cs.payload == "ok-multi" || cs.payload == "self-withdraw" || cs.payload == "fail-k" || cs.payload == "gas-hog" || cs.payload == "multi-signer"
 	if hookNeedsFunds && rapid.IntRange(0, 9).Draw(rt, "fundedHook") < 7 {
 		cs.toClass = "user" // the usual shape: the recipient signs a hook that spends what was just deposited
 	}
@@ -279,6 +285,20 @@ func genC07Case(rt *rapid.T) *c07Case {
 		if spendable.IsPositive() {
 			msgs := []sdk.Msg{opchildtypes.NewMsgInitiateTokenWithdrawal(cs.signer.Str, "l1-somebody-else", sdk.NewCoin(l2denom, one)), sendMsg(cs.signer, spendable.AddRaw(5))}
 			data = signTx(l2, msgs, []cryptotypes.PrivKey{cs.signer.Priv}, []uint64{num}, []uint64{seq}, henv.L2ChainID)
+		} else {
+			cs.payload = "none"
+		}
+	case "withdraw-native":
+		// a single-message hook that writes before it fails: withdrawing a token that did not come from L1
+		// burns first and is refused afterwards; none of it may stay
+		data = signTx(l2, []sdk.Msg{opchildtypes.NewMsgInitiateTokenWithdrawal(cs.signer.Str, "l1-somebody-else", coinOf("stake", 3))}, []cryptotypes.PrivKey{cs.signer.Priv}, []uint64{num}, []uint64{seq}, henv.L2ChainID)
+	case "withdraw-and-send":
+		// the withdrawal is not the last message of a hook that succeeds
+		if spendable.GTE(math.NewInt(2)) {
+			msgs := []sdk.Msg{opchildtypes.NewMsgInitiateTokenWithdrawal(cs.signer.Str, "l1-somebody-else", sdk.NewCoin(l2denom, one)), sendMsg(cs.signer, one)}
+			data = signTx(l2, msgs, []cryptotypes.PrivKey{cs.signer.Priv}, []uint64{num}, []uint64{seq}, henv.L2ChainID)
+			cs.sent[other.Str], cs.withdrawn = one, one
+			okHook = true
 		} else {
 			cs.payload = "none"
 		}
